@@ -255,6 +255,10 @@ impl TargetScheme for Vec<FormatElement> {
             .map(|el| match el {
                 FormatElement::Literal(s) => Ok(template_text(s)),
                 FormatElement::Field(f) => placeholder(f).map(|s| s.to_string()),
+                // There is no way to stop the output of a format half way
+                FormatElement::Special(FormatSpecial::Clear) => {
+                    Err(CompileError::UnsupportedFormat(String::from("Clear")))
+                }
                 FormatElement::Special(v) => Ok(literal(v)),
             })
             .collect::<CResult<Vec<String>>>()?
